@@ -71,6 +71,7 @@ use undermoon::proxy::session::{handle_session, CmdCtx, CmdHandler, CmdReplyFutu
 use undermoon::proxy::slowlog::Slowlog;
 
 const ADDR: &str = "127.0.0.1:6399";
+const LOG_CAP: usize = 6000;
 
 // ------------------------------------------------------------------------------------------------ shared log
 struct Shared {
@@ -83,7 +84,13 @@ struct Shared {
 impl Shared {
     fn ev(&self, node: usize, s: &str) {
         if !self.stopped.load(Ordering::SeqCst) {
-            self.log.lock().push(format!("{}:{}", node, s));
+            let mut log = self.log.lock();
+            // a runaway reconnect loop must not produce an unbounded line; the model accepts the prefix
+            if log.len() < LOG_CAP {
+                log.push(format!("{}:{}", node, s));
+            } else if log.len() == LOG_CAP {
+                log.push("0:truncated".to_string());
+            }
         }
     }
     // every task queued for `node` is received now
